@@ -401,6 +401,48 @@ class Check:
             raise Undecided("harness %s -run %s wrote no output (test not matched?)\n%s" % (pkg, run, o[-2000:]))
         return out, o
 
+    def apalache_inductive(self, module, bad_subs, cinit=None, safety="Safety"):
+        """Apalache: IndInv of an integer-only module holds initially, is inductive and implies `safety`, for
+        unbounded values; the defective variant obtained by the textual substitution bad_subs (old, new) must be
+        refuted.  A missing, failing or slow tool is exit 2, never a verdict."""
+        import shutil as _sh
+        d = os.path.join(self.scratch, "apalache-" + module)
+        os.makedirs(d, exist_ok=True)
+        src = open(os.path.join(self.specdir, module + ".tla")).read()
+        bad = src.replace("MODULE " + module, "MODULE " + module + "Bad")
+        if bad_subs[0] not in bad:
+            raise Undecided("defective variant of %s: %r not found" % (module, bad_subs[0]))
+        bad = bad.replace(bad_subs[0], bad_subs[1])
+        open(os.path.join(d, module + ".tla"), "w").write(src)
+        open(os.path.join(d, module + "Bad.tla"), "w").write(bad)
+        if not _sh.which("apalache-mc"):
+            raise Undecided("apalache-mc is not on PATH")
+
+        def ap(mod, init, inv, length):
+            cmd = ["apalache-mc", "check", "--init=" + init, "--inv=" + inv, "--length=%d" % length,
+                   "--out-dir=" + os.path.join(d, "out")]
+            if cinit:
+                cmd.append("--cinit=" + cinit)
+            try:
+                p = subprocess.run(cmd + [mod + ".tla"], cwd=d, stdout=subprocess.PIPE, stderr=subprocess.STDOUT, text=True,
+                                   timeout=900)
+            except subprocess.TimeoutExpired:
+                raise Undecided("apalache-mc timed out on %s %s" % (mod, inv))
+            if "EXITCODE: OK" in p.stdout:
+                return True
+            if "EXITCODE: ERROR (12)" in p.stdout:
+                return False
+            raise Undecided("apalache-mc failed on %s %s:\n%s" % (mod, inv, p.stdout[-1500:]))
+        steps = [(module, "Init", "IndInv", 0, True, "initial states satisfy IndInv"),
+                 (module, "IndInit", "IndInv", 1, True, "IndInv is inductive"),
+                 (module, "IndInit", safety, 0, True, "IndInv implies " + safety),
+                 (module + "Bad", "IndInit", "IndInv", 1, False, "sanity: the defective variant is refuted")]
+        for mod, init, inv, length, want, what in steps:
+            if ap(mod, init, inv, length) != want:
+                raise Undecided("Apalache %s: %s -- expected %s" % (module, what, want))
+            self.notes.append("Apalache %s (unbounded integers): %s" % (module, what))
+        self.cov["apalache_obligations"] = self.cov.get("apalache_obligations", 0) + len(steps)
+
     def _add_helpers(self, repl, pkg, hdir):
         """the generated vh helper, once per package name used by the harness
         files (the package itself and/or its external test package)"""
